@@ -74,7 +74,21 @@ func (s *sock) WriteJSON(v interface{}) error {
 		s.h.c.Violate("unserialisable-envelope", "WriteJSON got a value that does not serialise: %v", err)
 		return err
 	}
+	// an envelope that is lost (closed socket, write error) may have reported a
+	// subscription's own failure; that subscription legitimately ends itself
+	lost := func() {
+		var env struct {
+			ID   string `json:"id"`
+			Type string `json:"type"`
+		}
+		if json.Unmarshal(b, &env) == nil && env.Type == "error" && simrt.CurID() != s.loopTask {
+			if in := s.h.live[env.ID]; in != nil {
+				in.initialErr = true
+			}
+		}
+	}
 	if s.isClosed {
+		lost()
 		return websocket.ErrCloseSent
 	}
 	if s.failWrite > 0 {
@@ -82,6 +96,7 @@ func (s *sock) WriteJSON(v interface{}) error {
 		if s.failWrite == 0 {
 			s.h.c.Fault("socket-write-error")
 			s.h.writeFailed = true
+			lost()
 			return errors.New("broken pipe")
 		}
 	}
@@ -135,6 +150,12 @@ type instance struct {
 	// failedHard: a resolver of this instance returned context.Canceled, so
 	// the subscription ends itself (no envelope is sent for that)
 	failedHard bool
+	// failedBeforeFirst: an ordinary resolver failure fired for this instance
+	// before it had received its first update (its initial run failed)
+	failedBeforeFirst bool
+	// clientUnsub: the client sent an unsubscribe for this instance's id after
+	// subscribing it
+	clientUnsub bool
 }
 
 type logEvent struct {
@@ -473,6 +494,11 @@ func connBody(c *runner.Ctx) {
 			h.instances[inst].failedHard = true
 		}
 	}
+	w.live.onFailure = func(inst int) {
+		if inst >= 0 && inst < len(h.instances) && !h.instances[inst].gotFirst {
+			h.instances[inst].failedBeforeFirst = true
+		}
+	}
 	h.faulty = c.Choose(2, "class") == 1
 	c.Class = "fault-free"
 	if h.faulty {
@@ -560,7 +586,7 @@ func connBody(c *runner.Ctx) {
 			h.instances = append(h.instances, in)
 			if h.faulty && c.Biased(4, 700, "initial-failure") > 0 {
 				// make one datum the query needs fail on its next invocation
-				h.armFailure(in, c.Choose(4, "failure-kind")+1, 1)
+				h.armFailure(in, c.Choose(6, "failure-kind")+1, 1)
 			}
 			desc = append(desc, fmt.Sprintf("subscribe(%s #%d)", id, in.inst))
 			c.Describe("instance %d id=%s: %s", in.inst, id, in.text)
@@ -568,6 +594,11 @@ func connBody(c *runner.Ctx) {
 		case op < 7:
 			desc = append(desc, fmt.Sprintf("unsubscribe(%s)", id))
 			target := h.live[id]
+			for _, in := range h.instances {
+				if in.id == id && !in.ended {
+					in.clientUnsub = true
+				}
+			}
 			idx := len(h.sent)
 			h.send("unsubscribe", id, nil, nil)
 			// once the server asks for the next message the unsubscribe has been processed
@@ -613,9 +644,10 @@ func connBody(c *runner.Ctx) {
 			c.WallGuard = 5 * time.Second
 			c.WallNote = fmt.Sprintf("subscribe with a %d-byte query of %d nested double fragment spreads", sb.Len(), depth)
 			desc = append(desc, fmt.Sprintf("bomb(%d)", depth))
-			bid := fmt.Sprintf("b%d", k)
-			h.send("subscribe", bid, map[string]interface{}{"query": sb.String(), "variables": map[string]interface{}{"inst": -1}}, nil)
-			h.send("unsubscribe", bid, nil, nil)
+			// an ordinary subscription otherwise: its result is { n }
+			in := &instance{inst: len(h.instances), id: id, root: &qset{sels: []*qsel{{name: "n"}}}, text: sb.String()}
+			h.instances = append(h.instances, in)
+			h.send("subscribe", id, map[string]interface{}{"query": in.text, "variables": map[string]interface{}{"inst": in.inst}}, in)
 		case op == 10 && h.faulty:
 			desc = append(desc, "garbage")
 			c.Fault("garbage-envelope")
@@ -646,6 +678,9 @@ func connBody(c *runner.Ctx) {
 			c.ViolateFor("C15,C02", "connection-dead", "the connection did not answer an echo at quiescence (got %d replies)", h.echoes["final-echo"])
 		}
 		for _, in := range h.instances {
+			if in.accepted && in.failedBeforeFirst && !in.gotFirst && in.errorEnvs == 0 && !in.failedHard && !in.clientUnsub && !h.writeFailed {
+				c.ViolateFor("C16", "initial-failure-not-reported", "the first computation of instance %d (id %s) failed with an ordinary error but the client got neither an update nor an error envelope", in.inst, in.id)
+			}
 			if in.accepted && !in.ended && (in.initialErr || in.failedHard) {
 				c.ViolateFor("C16,C17,C02", "failed-subscription-not-closed", "instance %d (id %s) failed (%s) but is still registered 5 simulated minutes later: no Unsubscribe was logged, its id and its slot stay taken", in.inst, in.id, map[bool]string{true: "initial failure, error envelope sent", false: "a resolver returned context.Canceled"}[in.initialErr])
 			}
@@ -763,7 +798,7 @@ func (h *connHarness) armTransient() {
 		return
 	}
 	in := insts[h.c.Choose(len(insts), "transient-inst")]
-	h.armFailure(in, h.c.Choose(4, "failure-kind")+1, 1+h.c.Choose(2, "failure-count"))
+	h.armFailure(in, h.c.Choose(6, "failure-kind")+1, 1+h.c.Choose(2, "failure-count"))
 	h.c.Fault("transient-failure-armed")
 	// and make sure the datum is re-read
 	for k, n := range h.w.live.failNext {
